@@ -5,7 +5,7 @@ SPEC = {
     "stages": [{"name": "main", "harness": "C10_dns.cpp", "config": "san",
                 "deadline": {"quick": 600, "thorough": 3000}}],
     "technique": ("explicit-state BFS, depth-bounded, over the real Tins::DNS object with a lock-step reference model; "
-                  "plus exhaustive enumeration of malformed-name families"),
+                  "plus exhaustive enumeration of malformed-name families, long single-operation histories and the 16-bit record type domain"),
     "rule": ("One BFS (mc::Explorer) per (initial message, alphabet run): state = real Tins::DNS (copied per state) x model of four record "
              "vectors; canonical key = header counts, records_data_, the three section indices, model. Initial messages (6): empty; wire "
              "messages written by the harness' own encoder: uncompressed; compressed response (answers point into the question, a pointer "
@@ -33,10 +33,31 @@ SPEC = {
              "class derived from Tins::exception_base, with no sanitizer report (message in an exactly sized heap block); legal cases "
              "(chains <= 4 jumps, names up to 255 octets, 127 labels) must be shown correctly; a cleanly parsed message that the reference decoder "
              "also accepts must show the reference decoder's sections. distinct_nontrivial = product states with records in >= 2 sections "
-             "(plus distinct (family, position, outcome) triples of shape B)."),
+             "(plus distinct (family, position, outcome) triples of shape B). "
+             "REPETITION family (long histories of ONE operation; counted in `evaluations`): for each initial message in {empty, compressed, "
+             "ptr2ptr-soa-mx} x each of add_query/add_answer/add_authority/add_additional x each of 6 records (short A, CNAME, MX, SOA, TXT, NS with a "
+             "255-octet owner and a 77-octet name as data) the operation is applied n = 1..N times (quick N = 300; thorough N = 1100, 400 for the "
+             "342-octet record) and the full coherence oracle above (header counts = section sizes = number inserted, getters = the inserted records in "
+             "order, the same after serialize -> parse) runs after EVERY step, not only around the boundaries; additionally at every n, on a copy, one "
+             "insertion (short record; the same record) into every EARLIER section followed by the full oracle (relocation of the n records). Boundaries "
+             "crossed: 255/256 and 1023/1024 records in one section, section offsets 255/256, message size 512, 0x3fff/0x4000 (17-octet records at n = 964, "
+             "342-octet records at n = 48) and 65535/65536 octets. When a compression pointer of a parsed message would have to address an offset above "
+             "0x3fff the insertion must either keep the message coherent or be refused with a libtins exception that leaves the message unchanged "
+             "(signature dns:pointer-target-beyond-0x3fff:* otherwise); the quick tier stops a sequence right before that point, the thorough tier goes "
+             "through it. TYPE SWEEP (`evaluations`): for every record type 0..65535 (thorough) / 0..1023, 0xff00..0xffff, every value equal to one of "
+             "1,2,5,6,12,15,28,39 modulo 32 and every value one bit away from those (quick: 17 344 types), through add_answer, add_authority and "
+             "add_additional (and add_query for the values 0..63 that DNS::QueryType can hold): (a) add to a fresh message and read back, (b) serialize -> "
+             "parse -> read back, (c) the parsed message + one insertion into the section right before and into the question section (update_records walks "
+             "over the record) -> read back, -> parse -> read back. Data per reference class, the classification being an explicit table from the RFCs "
+             "(not DNS::contains_dname): opaque types: 7 blobs (empty, one octet, c0 0c, c0 ff, 3f 'abc', name-like 12 octets, dotted text) must come back "
+             "byte-identical; A / AAAA: address text; NS, CNAME, PTR, MX: dotted names (+ preference); SOA: uncompressed wire rdata; the 19 types whose "
+             "RDATA holds names but which neither the statement nor the libtins documentation lists (MD, MF, MB, MG, MR, MINFO, RP, AFSDB, RT, SIG, PX, NXT, "
+             "SRV, NAPTR, KX, A6, DNAME, RRSIG, NSEC): raw octets or dotted names, but the same in both directions."),
     "claim": ("Every sequence of insertions up to the depth bound, from each of the six initial messages and within each alphabet run, is "
               "executed on the real object and compared with the model after every step, before and after a serialize/parse round trip; "
-              "every member of the listed malformed-name families is evaluated."),
+              "every member of the listed malformed-name families is evaluated; every prefix of every repetition sequence (and one front insertion "
+              "per earlier section at every length) is checked with the full oracle; every record type value of the tier's set is carried through "
+              "add / read / serialize / parse / relocate with every data variant of its reference class."),
     "note": ("Trusted: sanitizers; the harness' own RFC 1035 encoder/decoder (mc/ref/dns_ref.hpp; the hand-written expectations of the initial "
              "messages are cross-checked against the decoder at start-up). Bounds: insertion depth, alphabet split into runs (records of "
              "different runs are never mixed in one history), six initial messages, one class (IN) plus the types listed."),
@@ -46,5 +67,9 @@ SPEC = {
                     "malformed input may also be parsed cleanly (only memory safety and the exception class are required there), except names whose dotted form "
                     "exceeds 255 characters (encoded > 257 octets): those must be refused",
                     "names of 256 or 257 encoded octets (above RFC 1035's 255, but accepted by libtins) may be shown exactly or refused",
+                    "a message in which a compression pointer would have to address an offset above 0x3fff may refuse further insertions in front of the target "
+                    "(libtins exception, message unchanged) instead of expanding the name",
+                    "types whose RDATA contains names but which are not listed by the statement or the libtins documentation may be shown as raw octets or as "
+                    "dotted names, consistently",
                     "sanitizers: ASan+UBSan (alignment check off)"],
 }
